@@ -1813,11 +1813,11 @@ func TestCheck(t *testing.T) {
 				}
 				for k := 0; k < reps; k++ {
 					if c.Expired() {
-						c.Cap("budget expired during the free-running smoke pass")
+						c.Extra("free_running_pass_cut_short_by_budget", 1) // informational pass: does not affect the exhaustiveness of the scheduled enumeration
 						break
 					}
 					if hung.Load() || freeHung {
-						c.Cap("the free-running smoke pass of a worker stopped after an execution hung")
+						c.Extra("free_running_pass_stopped_after_hang", 1) // informational pass (see above)
 						break
 					}
 					res := runFree(t, j.sc)
